@@ -1723,8 +1723,14 @@ def m_saturating(I, st, t, args, site, depth):
                 return [(st, r)]
         if d is False:
             return [(st, 0)]
-    if name == "wrapping_add" or name == "saturating_add" or name == "wrapping_sub":
-        pass
+    if name == "saturating_add":
+        bits = INT_BITS.get(oty)
+        la, ha = I.bounds(st, a)
+        lb, hb = I.bounds(st, b)
+        if bits and ha + hb <= (1 << bits) - 1:
+            r = lin_add(a, b, 1)
+            if r is not None:
+                return [(st, r)]
     return None
 
 
@@ -1748,6 +1754,10 @@ def m_min(I, st, t, args, site, depth):
     a, b = args[0], args[1]
     if isinstance(a, int) and isinstance(b, int):
         return [(st, min(a, b) if t.callee.name == "min" else max(a, b))]
+    d = I.decide_cmp(st, "Le", a, b)
+    if d is not None:
+        small, big = (a, b) if d else (b, a)
+        return [(st, small if t.callee.name == "min" else big)]
     return [(st, (t.callee.name, tform(a), tform(b)))]
 
 
@@ -1796,6 +1806,7 @@ DEFAULT_MODELS = {
 DEFAULT_MODELS = {k: v for k, v in DEFAULT_MODELS.items() if v is not None}
 SUFFIX_MODELS = [
     ("::saturating_sub", m_saturating),
+    ("::saturating_add", m_saturating),
     ("FromPrimitive::from_u8", m_from_u8),
     ("FromPrimitive::from_u16", m_from_u8),
     ("FromPrimitive::from_u32", m_from_u8),
